@@ -850,6 +850,18 @@ func reconstructPartDFS(buf *bytes.Buffer, sharedDB *sql.DB, node *PartNode, s3S
 		// The parts are already in the order they were stored in the database
 		// If the original email has parts in non-RFC-compliant order, we preserve that order
 
+		// The boundary must not occur in what it delimits (RFC 2046 5.1.1): render the children first and
+		// lengthen the boundary until no line of theirs can be taken for a delimiter
+		rendered := make([][]byte, len(children))
+		for i, child := range children {
+			var childBuf bytes.Buffer
+			reconstructPartDFS(&childBuf, sharedDB, child, s3Storage, boundary)
+			rendered[i] = childBuf.Bytes()
+		}
+		for n := 0; boundaryOccursIn(rendered, boundary); n++ {
+			boundary = fmt.Sprintf("----=_Part_%s_%d_%d", subtype, node.Part["id"].(int64), n)
+		}
+
 		// Write Content-Type header for this multipart section
 		// Only add MIME-Version if this is at the root level (no parent boundary)
 		if parentBoundary == "" {
@@ -864,10 +876,10 @@ func reconstructPartDFS(buf *bytes.Buffer, sharedDB *sql.DB, node *PartNode, s3S
 		}
 		buf.WriteString("\r\n")
 
-		// Recursively process all children with DFS
-		for _, child := range children {
+		// Write the children, each behind a delimiter line
+		for _, part := range rendered {
 			fmt.Fprintf(buf, "--%s\r\n", boundary)
-			reconstructPartDFS(buf, sharedDB, child, s3Storage, boundary)
+			buf.Write(part)
 		}
 
 		// Write closing boundary
@@ -880,6 +892,30 @@ func reconstructPartDFS(buf *bytes.Buffer, sharedDB *sql.DB, node *PartNode, s3S
 		writePartHeaders(buf, node.Part)
 		writePartContentWithS3(buf, sharedDB, node.Part, s3Storage)
 	}
+}
+
+// boundaryOccursIn reports whether a line of one of the rendered parts would be read as a delimiter of
+// boundary: "--" boundary at the start of a line, followed by the end of the line, white space or "--"
+func boundaryOccursIn(parts [][]byte, boundary string) bool {
+	delimiter := []byte("--" + boundary)
+	for _, part := range parts {
+		for rest := part; len(rest) > 0; {
+			line := rest
+			if i := bytes.IndexByte(rest, '\n'); i >= 0 {
+				line, rest = rest[:i], rest[i+1:]
+			} else {
+				rest = nil
+			}
+			if !bytes.HasPrefix(line, delimiter) {
+				continue
+			}
+			after := line[len(delimiter):]
+			if len(after) == 0 || after[0] == ' ' || after[0] == '\t' || after[0] == '\r' || bytes.HasPrefix(after, []byte("--")) {
+				return true
+			}
+		}
+	}
+	return false
 }
 
 // getStringField safely gets a string field from a map, returning empty string if not found
